@@ -6,7 +6,7 @@
  * script:  cfg k= w= t0= t1= t2= t3= cot= ca= ioa=
  *          connect [refuse] | step [n] | adv <ms> | rx <hex> | peerclose | wmode <0|1|2>
  *          startdt | stopdt | send <asdu-hex> | ic <ca> <qoi> | rd <ca> <ioa> | close | destroy
- *          poke vs=<n> vr=<n> | dump
+ *          poke vs=<n> vr=<n> | dump | cbsend <n> (next n ASDU callbacks send a read command from inside the callback)
  * trace:   tx <hex> | ev <NAME> | cb asdu <hex> | ret <0|1> | st ... */
 #include <stdio.h>
 #include <stdlib.h>
@@ -53,9 +53,11 @@ static void conn_handler(void* p, CS104_Connection c, CS104_ConnectionEvent ev)
         pthread_mutex_lock(&mx); thread_done = 1; pthread_cond_broadcast(&harness_cv); pthread_mutex_unlock(&mx);
     }
 }
+static int cb_send_left = 0;   /* `cbsend n`: the next n deliveries answer with a read command from inside the callback */
 static bool asdu_handler(void* p, int address, CS101_ASDU asdu)
 {
     static char b[700]; strcpy(b, "cb asdu "); sputhex(b + 8, asdu->asdu, asdu->asduHeaderLength + asdu->payloadSize); strcat(b, "\n"); evprintf(b);
+    if (cb_send_left > 0 && con) { cb_send_left--; CS104_Connection_sendReadCommand(con, cfg.ca, 77); }
     return true;
 }
 
@@ -92,7 +94,7 @@ static void teardown(void)
     flush();
     if (sock) { Sim_freeSocket(sock); sock = NULL; }
     sim_last_client_socket = NULL;
-    gate_allowed = 0; at_gate = 0; thread_done = 1; freerun = 0;
+    gate_allowed = 0; at_gate = 0; thread_done = 1; freerun = 0; cb_send_left = 0;
     Sim_reset(); Sim_setTime(1000000); cfg_default();
 }
 
@@ -168,6 +170,7 @@ int main(void)
                 else { f[1] = 4; f[2] = 1; f[3] = 0; Sim_feed(sock, f, 6); }
             }
         }
+        else if (!strcmp(cmd, "cbsend")) { sscanf(line, "%*s %d", &x); cb_send_left = x; }
         else if (!strcmp(cmd, "peerclose")) { if (sock) Sim_peerClose(sock); }
         else if (!strcmp(cmd, "wmode")) { sscanf(line, "%*s %d", &x); if (sock) sock->writeMode = x; }
         else if (!strcmp(cmd, "startdt")) { if (con && !thread_done) CS104_Connection_sendStartDT(con); }
